@@ -37,8 +37,6 @@ val eqb : bool -> bool -> bool
 
 module Nat :
  sig
-  val sub : nat -> nat -> nat
-
   val eqb : nat -> nat -> bool
 
   val leb : nat -> nat -> bool
@@ -52,8 +50,6 @@ module Nat :
   val divmod : nat -> nat -> nat -> nat -> nat * nat
 
   val div : nat -> nat -> nat
-
-  val modulo : nat -> nat -> nat
  end
 
 module Pos :
@@ -183,25 +179,17 @@ val tl : 'a1 list -> 'a1 list
 
 val nth : nat -> 'a1 list -> 'a1 -> 'a1
 
-val last : 'a1 list -> 'a1 -> 'a1
-
 val removelast : 'a1 list -> 'a1 list
 
 val rev : 'a1 list -> 'a1 list
 
 val map : ('a1 -> 'a2) -> 'a1 list -> 'a2 list
 
-val flat_map : ('a1 -> 'a2 list) -> 'a1 list -> 'a2 list
-
 val fold_left : ('a1 -> 'a2 -> 'a1) -> 'a2 list -> 'a1 -> 'a1
 
 val fold_right : ('a2 -> 'a1 -> 'a1) -> 'a1 -> 'a2 list -> 'a1
 
 val existsb : ('a1 -> bool) -> 'a1 list -> bool
-
-val forallb : ('a1 -> bool) -> 'a1 list -> bool
-
-val combine : 'a1 list -> 'a2 list -> ('a1 * 'a2) list
 
 val firstn : nat -> 'a1 list -> 'a1 list
 
@@ -241,8 +229,6 @@ val vNs : val0 -> n list option
 val omap : ('a1 -> 'a2 option) -> 'a1 list -> 'a2 list option
 
 val ofN : n -> val0
-
-val ofnat : nat -> val0
 
 val ofbool : bool -> val0
 
@@ -304,8 +290,6 @@ val text : dna -> n list
 
 val ascii_base : n -> n
 
-val ascii_valid : n -> bool
-
 val digits4 : nat -> n -> dna
 
 type wexp =
@@ -343,55 +327,9 @@ val ladder_128 : (((n * nat) * nat) * n) list
 
 val lower_of_two_128 : n
 
-val tbl_bits_to_ascii : n list
-
 val tbl_base_to_bits : n list
 
 val tbl_bits_to_base : n list
-
-val tbl_dna_only_base_to_bits : n list
-
-val avx_reverse_mask : n list
-
-val avx_lo_lut : n list
-
-val avx_lut : n list
-
-val avx_permute_imm : n
-
-val avx_lo_mask : n
-
-val avx_slli_first : nat
-
-val avx_slli_second : nat
-
-val avx_hi_shift : nat
-
-val avx_srli_hi : nat
-
-val avx_hi_lut_letters : n list
-
-val avx_hi_lut_offset : n
-
-val avx_hi_lut_words : n list
-
-val tbl_hashn_arms : n list
-
-val hashn_modulus : n
-
-val ascii_fill_mod : nat
-
-val ascii_offset0 : nat
-
-val ascii_group : nat
-
-val ascii_assert_lt : nat
-
-val ascii_offset_step : nat
-
-val ascii_chunk : nat
-
-val ascii_chunk_full : nat
 
 type kcfg = { kW : nat; kK : nat; kInt : bool }
 
@@ -544,177 +482,6 @@ val insert_by : ('a1 -> 'a1 -> bool) -> 'a1 -> 'a1 list -> 'a1 list
 val sort_by : ('a1 -> 'a1 -> bool) -> 'a1 list -> 'a1 list
 
 val dedup_by : ('a1 -> 'a1 -> bool) -> 'a1 list -> 'a1 list
-
-val upper : n -> n
-
-val render_char : n -> n
-
-val render : n list -> n list
-
-val runs : ('a1 -> bool) -> 'a1 list -> 'a1 list list
-
-val acgt_runs : n list -> dna list
-
-val hashn_ok : n list -> dna -> bool
-
-val hashn_local : n list -> dna -> n list -> dna -> bool
-
-type vec = n list
-
-val set_epi8 : n list -> vec
-
-val le_bytes0 : nat -> n -> n list
-
-val set_epi64x : n list -> vec
-
-val set1_epi8 : n -> vec
-
-val setzero_si256 : vec
-
-val loadu_si256 : n list -> vec
-
-val shuffle_epi8_gen : 'a1 -> 'a1 list -> vec -> 'a1 list
-
-val permute4x64_epi64_gen : 'a1 -> 'a1 list -> n -> 'a1 list
-
-val unpack_epi8_gen : 'a1 -> nat -> 'a1 list -> 'a1 list -> 'a1 list
-
-val shuffle_epi8 : vec -> vec -> vec
-
-val permute4x64_epi64 : vec -> n -> vec
-
-val unpacklo_epi8 : vec -> vec -> vec
-
-val unpackhi_epi8 : vec -> vec -> vec
-
-val word16 : vec -> nat -> n
-
-val lo8 : n -> n
-
-val hi8 : n -> n
-
-val of_words16 : (nat -> n) -> vec
-
-val slli_epi16 : vec -> nat -> vec
-
-val srli_epi16 : vec -> nat -> vec
-
-val map2 : ('a1 -> 'a1 -> 'a1) -> 'a1 list -> 'a1 list -> 'a1 list
-
-val and_si256 : vec -> vec -> vec
-
-val andnot_si256 : vec -> vec -> vec
-
-val cmpeq_epi8 : vec -> vec -> vec
-
-val testc_si256 : vec -> vec -> n
-
-val movemask_epi8 : vec -> n
-
-val reverse_mask : vec
-
-val pack_32_bases : vec -> n
-
-val lut_hi_word : n
-
-val hi_lut : vec
-
-val lo_lut : vec
-
-val lo_mask : vec
-
-val lut : vec
-
-val convert_bases_vec : vec -> vec * bool
-
-val convert_bases : n list -> (vec * bool) option
-
-type dstr = { ds_storage : n list; ds_len : nat }
-
-val ds_new : dstr
-
-val obind0 : 'a1 option -> ('a1 -> 'a2 option) -> 'a2 option
-
-val omapM : ('a1 -> 'a2 option) -> 'a1 list -> 'a2 list option
-
-val base_to_bits : n -> n
-
-val dna_only_base_to_bits : n -> n option
-
-val bits_to_ascii : n -> n
-
-val bits_to_base_ch : n -> n
-
-val chunks_fuel : nat -> nat -> 'a1 list -> 'a1 list list
-
-val chunks : nat -> 'a1 list -> 'a1 list list
-
-val ds_addr : nat -> nat * nat
-
-val ds_get : dstr -> nat -> n option
-
-val set_by_addr : n list -> nat -> nat -> n -> n list option
-
-val ds_push : dstr -> n -> dstr option
-
-val extend_fill : dstr -> n list -> (dstr * n list) option
-
-val pack_group : n list -> n option
-
-val extend_groups : dstr -> n list -> dstr option
-
-val ds_extend : dstr -> n list -> dstr option
-
-val from_acgt_bytes_avx2 : n list -> dstr option
-
-val from_acgt_bytes_scalar : n list -> dstr option
-
-val char_as_u8 : n -> n
-
-val from_dna_string : n list -> dstr option
-
-val only_gen : (n -> n option) -> n list -> dstr list option
-
-val classify_char : n -> n option
-
-val from_dna_only_string : n list -> dstr list option
-
-val classify_char_old : n -> n option
-
-val from_dna_only_string_old : n list -> dstr list option
-
-val hashn_base : (n list -> nat -> n) -> n list -> nat -> n -> n
-
-val from_acgt_bytes_hashn :
-  (n list -> nat -> n) -> n list -> n list -> dstr option
-
-val ds_to_bytes : dstr -> n list option
-
-val to_ascii_vec : dstr -> n list option
-
-val ds_to_string : dstr -> n list option
-
-val pack_be : n list -> n
-
-val ds_of_dna : n list -> dstr
-
-val ds_inv : dstr -> bool
-
-type ahandler = val0 list -> val0 option
-
-val alookup : string -> (string * ahandler) list -> ahandler option
-
-val of_ds : dstr -> val0
-
-val v_ds : val0 -> dstr option
-
-val with_bytes : (n list -> val0) -> ahandler
-
-val ascii_ops : (string * ahandler) list
-
-val is_ascii_op : string -> bool
-
-val d_ascii : string -> val0 -> val0 option
 
 val cfg_of : n -> n -> kcfg
 
